@@ -7,6 +7,7 @@ package telemetry
 // descendant which calls Start again, as the real `go mod download` would.
 
 import (
+	"encoding/json"
 	"crypto/sha256"
 	"fmt"
 	"io"
@@ -20,7 +21,6 @@ import (
 	"testing"
 	"time"
 
-	"golang.org/x/telemetry/internal/configstore"
 	icounter "golang.org/x/telemetry/internal/counter"
 	"golang.org/x/telemetry/internal/crashmonitor"
 	itelemetry "golang.org/x/telemetry/internal/telemetry"
@@ -147,15 +147,27 @@ func scenarioStart(c *hlib.RunCtx) *hlib.Violation {
 	// the config download of the real uploader executes `go mod download`, a
 	// process that itself may use telemetry: it calls Start with the inherited
 	// environment.
-	configstore.VerifDownload = func(version string, env []string) (*itelemetryUploadConfig, string, error) {
-		cmd := exec.Command("go", "mod", "download", "-json", "golang.org/x/telemetry/config@latest")
-		cmd.Env = append(simrt.Environ(), env...)
-		if err := simrt.CmdRun(cmd); err != nil {
-			return nil, "", err
+	// (configstore.Download is the real one; the `go` command is a process of the
+	// simulated process table that prints the directory of an empty configuration.)
+	s.RunFn = func(cmd *exec.Cmd) (bool, error) {
+		if len(cmd.Args) < 3 || cmd.Args[0] != "go" || cmd.Args[1] != "mod" || cmd.Args[2] != "download" {
+			return false, nil
 		}
-		return &itelemetryUploadConfig{}, "v0.1.0", nil
+		if err := simrt.CmdStart(cmd); err != nil {
+			return true, err
+		}
+		if err := simrt.CmdWait(cmd); err != nil {
+			return true, err
+		}
+		mod := filepath.Join(c.Dir, "modcache", "config@v0.1.0")
+		os.MkdirAll(mod, 0777)
+		os.WriteFile(filepath.Join(mod, "config.json"), []byte("{}"), 0666)
+		if cmd.Stdout != nil {
+			js, _ := json.Marshal(map[string]string{"Dir": mod, "Version": "v0.1.0"})
+			cmd.Stdout.Write(js)
+		}
+		return true, nil
 	}
-	defer func() { configstore.VerifDownload = nil }()
 
 	// What can go wrong in the parent after it took the token: the debug
 	// directory exists but the log file cannot be opened, or the fork fails.
